@@ -320,9 +320,14 @@ def replay(data):
         sp = data["spec"]
         idx = tuple(sp[0]) if isinstance(sp[0], list) else sp[0]
         r = check_array_value(env, (idx, sp[1], tuple(tuple(a) for a in sp[2])))
-        if r["status"] != "viol":
-            # the stored order of the assignments follows object addresses: try the other creation order too
-            r = check_array_value(tv.fresh_env(), (idx, sp[1], tuple(tuple(a) for a in sp[2])), reverse_keys=True)
+        # the stored order of the assignments follows object addresses (sorted by id()): try the other creation order of the key
+        # constants, and both again after unrelated allocations have shifted the addresses
+        junk = []
+        for attempt in range(8):
+            if r["status"] == "viol":
+                break
+            junk.append([object() for _ in range(37 * (attempt + 1))])
+            r = check_array_value(tv.fresh_env(), (idx, sp[1], tuple(tuple(a) for a in sp[2])), reverse_keys=(attempt % 2 == 0))
     elif data["kind"] == "sorts":
         r = check_sorts(env, (data["op"], tuple(data["combo"]), tuple(data["payload"]) if data["payload"] else None))
     else:
